@@ -247,6 +247,12 @@ def monitor (g : Ghost) (w : List String) (head : String) (rets : List (Nat × S
     | some t =>
       if head == "ok" then
         g := g.setTG t { g.tg t with peerLimit := max (g.tg t).peerLimit (intOf n) }
+  | ["race", _, t, n] =>
+    match parseT t with
+    | none => pure ()
+    | some t =>
+      if head == "ok" then
+        g := g.setTG t { g.tg t with peerLimit := max (g.tg t).peerLimit (intOf n) }
   | ["params", nb, nu] =>
     g := g.setTG .bidi { g.b with peerLimit := max g.b.peerLimit (intOf nb) }
     g := g.setTG .uni { g.u with peerLimit := max g.u.peerLimit (intOf nu) }
@@ -333,10 +339,36 @@ def step (s : St) (op impl : String) : St × StepOut :=
       | ["reset0rtt"] => some ([.resetFor0RTT], (fun ev => if ev.panic then "PANIC" else "ok"), [])
       | ["usereset"] => some ([.useResetMaps], (fun _ => "ok"), [])
       | _ => none
+    -- `race`: the Go scheduler decides whether the cancelled caller sees ctx.Done() before or after the
+    -- MAX_STREAMS frame is handled, and which select case wins; the model tries the three schedules and
+    -- follows the one the implementation took (the monitors judge the outcome either way)
+    let raceOf : Option (Nat × STyp × Int) := match w with
+      | ["race", c, t, n] => (parseT t).bind fun t =>
+          if ([m.outBidi, m.outUni] ++ m.oldOut).any (fun o => (o.findProc (natOf c)).isSome) then some (natOf c, t, intOf n) else none
+      | _ => none
+    match raceOf with
+    | some (c, t, n) =>
+      let runSched (ops : List MapOp) : Map × String :=
+        let (m1, rets, frames) := ops.foldl (fun (acc : Map × List (Nat × Ret) × List Frame) o =>
+            let (m', e) := acc.1.step o
+            (m', acc.2.1 ++ e.rets, acc.2.2 ++ e.frames)) (m, [], [])
+        let (m2, rs, fs) := m1.quiesce FUEL
+        (m2, "ok" ++ suffix m2 (rets ++ rs) (frames ++ fs))
+      let scheds : List (String × List MapOp) := [
+        ("race:cancel-first", [.cancelCtx c, .outCtxDone c, .outCancelLocked c, .maxStreams t n]),
+        ("race:frame-first-ctx-wins", [.cancelCtx c, .maxStreams t n, .outCtxDone c, .outCancelLocked c]),
+        ("race:frame-first-token-wins", [.cancelCtx c, .maxStreams t n, .outRecv c, .outWakeLocked c])]
+      let cands := scheds.map fun (tag, ops) => (tag, runSched ops)
+      let pick := match cands.find? (fun x => x.2.2 == impl) with
+        | some x => x
+        | none => cands.headD ("race:none", (m, "?"))
+      let (g', fails) := if s.hasGhost then monitor s.g w head (implRets iw) (implFrames iw) else (s.g, [])
+      ({ s with m := some pick.2.1, g := g' }, { model := pick.2.2, tags := [pick.1], fails := fails })
+    | none =>
     match plan with
     | none =>
       let model := match w with
-        | "opensync" :: _ | "accept" :: _ | "cancel" :: _ | "new" :: _ => "skip"
+        | "opensync" :: _ | "accept" :: _ | "cancel" :: _ | "new" :: _ | "race" :: _ => "skip"
         | _ => "bad-op"
       (s, { model := model, tags := ["skip"] })
     | some (ops, resOf, newCids) =>
